@@ -573,10 +573,22 @@ func checkC11(c c11Case, ctx *vCtx) *vFailure {
 		lg := vWriteFile("c11-log.yaml", "2021/01/01:\n  zz: 1\n")
 		x := "x"
 		cmds := [][]string{{"csv", "database-resolved"}, {"reg", "--no-color"}, {"bal"}, {"report", "totals"}, {"report", "element-total", x}, {"report", "unresolved"}, {"summary", "2021/01/01"}}
+		// a configuration file with another depth: the flag / environment value must win, also when it equals the default
+		other := c.N + 3
+		if c.N > 6 {
+			other = c.N - 5
+		}
+		cfgp := vWriteFile("c11.conf", fmt.Sprintf("[Resolver]\nMaxDepth=%d\n", other))
+		cfgOnly := vWriteFile("c11-only.conf", fmt.Sprintf("[Resolver]\nMaxDepth=%d\n", c.N))
 		for i, cmd := range cmds {
 			inv := vInvocation{Args: append([]string{"--maxdepth", fmt.Sprint(c.N), "-d", p, "-l", lg}, cmd...)}
-			if i%2 == 1 {
+			switch i % 4 {
+			case 1:
 				inv = vInvocation{Args: append([]string{"-d", p, "-l", lg}, cmd...), Env: map[string]string{"HR_MAXDEPTH": fmt.Sprint(c.N)}}
+			case 2:
+				inv = vInvocation{Args: append([]string{"--config", cfgp, "--maxdepth", fmt.Sprint(c.N), "-d", p, "-l", lg}, cmd...)}
+			case 3:
+				inv = vInvocation{Args: append([]string{"--config", cfgOnly, "-d", p, "-l", lg}, cmd...)}
 			}
 			for rep := 0; rep < 3; rep++ {
 				r := vRunApp(inv)
